@@ -4,6 +4,7 @@
    `Gen._mi_page_ptr_unalign` (interior pointer -> block start, proved in C16).  The remaining parts of the contract (usable size,
    minimal alignment, natural-alignment fast path, huge alignments, behaviour of free/realloc/expand on interior pointers) are
    checked on the real allocator by the shadow oracle harness/seq.c. -/
+import MiVerif.Lemmas.PageStart
 import MiVerif.Gen.Entry
 import MiVerif.Props.C16
 
@@ -69,5 +70,20 @@ theorem interior_pointer_to_block (start bsize shift page i o : Nat)
     (hshift : (shift ≠ 0 → bsize = 2^shift ∧ shift < 64)) :
     Gen._mi_page_ptr_unalign start shift bsize page (start + i * bsize + o) = start + i * bsize :=
   C16.unalign_correct start bsize shift page i o hb ho hfit hshift
+
+/-- **blocks of power-of-two size classes are naturally aligned**: in a page with a power-of-two block size (8 bytes … 64 KiB) every block
+    starts at a multiple of the block size — over the regenerated `_mi_segment_page_start_from_slice`, for every 32 MiB-aligned segment,
+    every slice index and every block index.  This is what `mi_malloc_is_naturally_aligned` and the fast path of the aligned entry points
+    (a block of the size class is used as it is) rely on. -/
+theorem page_blocks_naturally_aligned (cnt seg idx bs psz : Nat) (hseg0 : seg % 33554432 = 0) (hseg : seg + 33554432 < 2^64) (hidx : idx < 512)
+    (hbs : bs ∈ [8, 16, 32, 64, 128, 256, 512, 1024, 2048, 4096, 8192, 16384, 32768, 65536]) (i : Nat) :
+    ((Gen._mi_segment_page_start_from_slice cnt seg (seg + 288 + idx * 96) bs psz).1 + i * bs) % bs = 0 :=
+  PageStartL.page_start_naturally_aligned cnt seg idx bs psz hseg0 hseg hidx hbs i
+
+/-- **minimal alignment**: the block area of every page starts at a multiple of 16 (so blocks of a size class that is a multiple of 16
+    are 16-byte aligned, as the C standard requires of malloc) -/
+theorem page_start_is_16_aligned (cnt seg idx bs psz : Nat) (hseg0 : seg % 33554432 = 0) (hseg : seg + 33554432 < 2^64) (hidx : idx < 512) :
+    (Gen._mi_segment_page_start_from_slice cnt seg (seg + 288 + idx * 96) bs psz).1 % 16 = 0 :=
+  PageStartL.page_start_16_aligned cnt seg idx bs psz hseg0 hseg hidx
 
 end C03
